@@ -139,6 +139,10 @@ Step1 ==
          [] e.ev \in {"RunStuck", "PeersTimeout", "OpenUnknown", "TrafficUnknown", "CloseUnknown"} ->
               Same(Check(FALSE, IF e.ev = "RunStuck" THEN "RunReturnsInBoundedTime"
                                 ELSE IF e.ev = "PeersTimeout" THEN "PeersServedInBoundedTime" ELSE "NeverOnOtherConn", e.ev, viols))
+         \* a peer that half-closes sees the end of the connection in bounded time (the engine answers an orderly end of
+         \* the stream by closing: OnClose is owed once, not only when the engine itself goes down)
+         [] e.ev = "PeerReadTimeout" /\ "how" \in DOMAIN e /\ e.how = "fin" ->
+              Same(Check(FALSE, "HalfCloseAnsweredInBoundedTime", e.c, viols))
          [] OTHER -> Same(viols)
 
 Next == Step1 \/ FinishWith(<<lc, loopg, hs, pend, req, eng, failed>>)
